@@ -89,6 +89,14 @@ def gen_list(rng, n, tier):
         elif r2 < 0.12:
             sc = rng.choice([2.0 ** 1000, 2.0 ** -1073, 2.0 ** -500])
             k = [w * sc for w in k]
+        if rng.random() < 0.06:
+            # a sharply peaked window (light weights 1e-13 of the heavy one) over a signal with isolated undefined samples: where the heavy weight meets one, the mean is that of the light neighbours
+            k = rng.choice([[1e-13, 1.0, 1e-13], [2e-13, 1e-13, 5.0, 1e-13, 3e-13], [1e-13, 2.0, 4e-13]])
+            m = rng.randint(len(k), len(k) + 6)
+            xs = [float(rng.choice([1, 2, -3, 7, 0.5, 2.25])) for _ in range(m)]
+            for i in range(len(k) // 2, m - len(k) // 2, 3):
+                if rng.random() < 0.7:
+                    xs[i] = None
         out.append({'x': xs, 'k': k, 'nodata': rng.choice([None, None, None, 0, 2, 7, -3, 2.5])})
     return out
 
